@@ -59,6 +59,15 @@ def gen_prog(rng, n=None, mem=True, patch=False, loop=None):
             prog.append({"k": "RT", "i": rng.randrange(1, 120)})
     # patches target RT / PU slots (first, middle or last byte of blocks: any slot)
     targets = [i for i, x in enumerate(prog) if x["k"] in ("RT", "PU")]
+    # at most one string store into code per program (its pointer moves on after the store), outside loops
+    if patch and targets and rng.random() < 0.35:
+        cand = [i for i, x in enumerate(prog) if x["k"] in ("RT", "PU") and (loop_at is None or i > loop_at + 1)]
+        if cand:
+            at = rng.choice(cand)
+            tg = [t for t in targets if t != at]
+            if tg:
+                prog[at] = {"k": "PATCHS", "s": rng.choice(tg)}
+                targets = tg
     for x in prog:
         if x["k"] == "PATCH":
             if targets:
@@ -239,8 +248,15 @@ def describe(job):
             "stack_mapped": item["stackok"], "acc": item["acc"], "cnt": item["cnt"]}
 
 
-def gen_mbp(rng):
-    """a memory breakpoint on the data window: read, write or both, 1-4 bytes, possibly straddling the page end"""
+def gen_mbp(rng, prog=()):
+    """a memory breakpoint on the data window: read, write or both, 1-4 bytes, possibly straddling the page end; mostly on
+    (or just below) an address the program really accesses"""
+    used = [(x["a"], x["k"]) for x in prog if x["k"] in ("LD", "ST", "ST4")]
+    if used and rng.random() < 0.8:
+        a, k = rng.choice(used)
+        a -= rng.choice([0, 0, 1]) if k != "ST4" else rng.choice([0, -1, -3, 1])
+        r = (k == "LD") if rng.random() < 0.8 else (k != "LD")
+        return {"c": "addmbp", "a": a, "n": rng.choice([1, 1, 2, 4]), "r": r, "w": (not r) or rng.random() < 0.3}
     a = rng.choice([P0, P0 + 1, P0 + 2, P0 + 0xffd, P0 + 0xfff, P1, P1 + 1])
     r = rng.random() < 0.6
     return {"c": "addmbp", "a": a, "n": rng.choice([1, 1, 2, 4]), "r": r, "w": (not r) or rng.random() < 0.4}
